@@ -117,3 +117,14 @@ def f32_wrapping_boxed_zero_like(case, impl, model, spec):
         return False
     n = len(case.args[0])
     return n > 1 and impl == model == 'ok 0' and spec == 'ok ' + ','.join(['0'] * n)
+
+
+def f4_inv_mod_zero_modulus(case, impl, model, spec):
+    """F4: Uint::inv_mod(x, 0) (inherent and InvMod trait) panics on `expect("inverse mod 2^k exists")` although it
+    returns an option. Matches exactly: the modulus operand is zero in every limb, the implementation panics, and both
+    the model of the repaired code and the specification say none (x != 1: gcd(x, 0) = x != 1)."""
+    if case.mop != 'uint.inv_mod' or len(case.args) < 2:
+        return False
+    if any(w != 0 for w in case.args[1]):
+        return False
+    return impl == 'panic' and model == 'none' and spec == 'none'
